@@ -162,3 +162,43 @@ c18_entry!(c18_t_entry_jc2m, jc2m_q);
 c18_entry!(c18_t_entry_theship, theship_q);
 c18_entry!(c18_t_entry_mc_legacy14, mc_legacy14);
 c18_entry!(c18_t_entry_mc_legacyb18, mc_legacyb18);
+
+/// The largest retry counts (usize::MAX - 1, usize::MAX) through every retrying
+/// entry point against a server that *answers* (an empty datagram: malformed,
+/// so nothing is retried and the run is finite): whatever arithmetic an entry
+/// point does with the retry count, it returns an error value, never panics.
+macro_rules! c18_extreme {
+    ($name:ident, $entry:path, $challenge_first:expr) => {
+        #[cfg(kani)]
+        #[kani::proof]
+        #[kani::unwind(12)]
+        #[kani::stub(alloc::fmt::format, stub_format)]
+        #[kani::stub(std::io::_print, stub_print)]
+        fn $name() {
+            let retries: usize = kani::any();
+            kani::assume(retries >= usize::MAX - 1);
+            let ts = timeout_settings_raw(None, None, None, retries);
+            let addr = any_addr_v4();
+            if $challenge_first {
+                world().push_data(vec![0xFF, 0xFF, 0xFF, 0xFF, 0x41, 1, 2, 3, 4]);
+            }
+            world().push_data(Vec::new());
+            let out = $entry(&addr, Some(ts));
+            assert!(out.is_some());
+            assert!(out != Some(K::PacketReceive) && out != Some(K::PacketSend));
+            kani::cover!(retries == usize::MAX, "largest retry count");
+        }
+    };
+}
+c18_extreme!(c18_extreme_retries_valve, valve_source, false);
+c18_extreme!(c18_extreme_retries_valve_challenged, valve_source, true);
+c18_extreme!(c18_extreme_retries_gs3, gs3, false);
+c18_extreme!(c18_extreme_retries_mindustry, mindustry_q, false);
+c18_extreme!(c18_t_extreme_retries_gs1, gs1, false);
+c18_extreme!(c18_t_extreme_retries_gs2, gs2, false);
+c18_extreme!(c18_t_extreme_retries_quake3, quake3, false);
+c18_extreme!(c18_t_extreme_retries_unreal2, unreal2_q, false);
+c18_extreme!(c18_t_extreme_retries_mc_bedrock, mc_bedrock, false);
+c18_extreme!(c18_t_extreme_retries_ffow, ffow_q, false);
+c18_extreme!(c18_t_extreme_retries_jc2m, jc2m_q, false);
+c18_extreme!(c18_t_extreme_retries_theship_challenged, theship_q, true);
